@@ -5,6 +5,7 @@ import (
 	"strconv"
 	"strings"
 	"time"
+	"unicode"
 
 	"github.com/mithrandie/csvq/lib/option"
 	"github.com/mithrandie/csvq/lib/value"
@@ -803,16 +804,35 @@ type Function struct {
 // identifier and has to be quoted again to be parsed.
 func functionNameString(name string) string {
 	plain := 0 < len(name)
-	for _, r := range name {
-		if !(r == '_' || ('0' <= r && r <= '9') || ('A' <= r && r <= 'Z') || ('a' <= r && r <= 'z') || 0x7f < r) {
+	for i, r := range name {
+		// the runes the scanner accepts in an identifier; a leading digit would start a number
+		if !(r == '_' || unicode.IsLetter(r) || (unicode.IsDigit(r) && 0 < i)) {
 			plain = false
 			break
 		}
 	}
-	if plain {
+	if plain && !isReservedFunctionName(name) {
 		return strings.ToUpper(name)
 	}
 	return option.QuoteIdentifier(name)
+}
+
+// keywordFunctionNames are the keywords that can be followed by an argument list as they are.
+var keywordFunctionNames = []int{REPLACE, IF, VAR, TIES, NULLS, ROWS, CSV, JSON, JSONL, FIXED, LTSV, SUBSTRING, COUNT, JSON_OBJECT}
+
+// isReservedFunctionName reports whether the name is a keyword that cannot be written as a function name without quotes.
+func isReservedFunctionName(name string) bool {
+	for i := KeywordFrom; i <= KeywordTo; i++ {
+		if strings.EqualFold(TokenLiteral(i), name) {
+			for _, k := range keywordFunctionNames {
+				if i == k {
+					return false
+				}
+			}
+			return true
+		}
+	}
+	return false
 }
 
 func (e Function) String() string {
@@ -844,7 +864,7 @@ func (e AggregateFunction) String() string {
 	}
 	s = append(s, listQueryExpressions(e.Args))
 
-	return strings.ToUpper(e.Name) + "(" + joinWithSpace(s) + ")"
+	return functionNameString(e.Name) + "(" + joinWithSpace(s) + ")"
 }
 
 func (e AggregateFunction) IsDistinct() bool {
@@ -1052,7 +1072,7 @@ func (e ListFunction) String() string {
 	}
 	args = append(args, listQueryExpressions(e.Args))
 
-	s := []string{strings.ToUpper(e.Name) + "(" + joinWithSpace(args) + ")"}
+	s := []string{functionNameString(e.Name) + "(" + joinWithSpace(args) + ")"}
 	if e.OrderBy != nil {
 		s = append(s, keyword(WITHIN), keyword(GROUP), "("+e.OrderBy.String()+")")
 	}
@@ -1085,7 +1105,7 @@ func (e AnalyticFunction) String() string {
 	}
 
 	s := []string{
-		strings.ToUpper(e.Name) + "(" + joinWithSpace(args) + ")",
+		functionNameString(e.Name) + "(" + joinWithSpace(args) + ")",
 		keyword(OVER),
 		"(" + e.AnalyticClause.String() + ")",
 	}
